@@ -159,6 +159,7 @@ def run(prop, args):
                 hit.add(pred)
                 rep.add_violation((C.variant(cfg), pred), cfg, detail)
     rep.extra["distinct_configs"] = len(seen)
+    R.run_regress(rep, lambda data: check_witness(prop, data))
     if not rep.samples:
         for r in gen_results[:5]:
             if "actions" in r:
@@ -198,17 +199,27 @@ def shrink(prop, bucket, witness):
     return small, violates(prop, small, bucket) or ""
 
 
-def replay(prop, args, rep):
-    data = R.load_replay(args.replay)
+def check_witness(prop, data, show=False):
     cfg = data["witness"]
     from .. import monitor
     r = monitor.execute(cfg, want_trace=True)
-    rep.evaluations = 1
-    print("replaying %s" % C.describe(cfg))
-    for i, t in enumerate(r.get("trace", [])[:60]):
-        from ..lib import fmt
-        print("  #%d %s" % (i + 1, fmt(t)))
+    if show:
+        print("replaying %s" % C.describe(cfg))
+        for i, t in enumerate(r.get("trace", [])[:60]):
+            from ..lib import fmt
+            print("  #%d %s" % (i + 1, fmt(t)))
+    out = []
+    hit = set()
     for (p, pred, detail) in r["viol"]:
-        if p == prop:
-            rep.add_violation((C.variant(cfg), pred), cfg, detail)
+        if p == prop and pred not in hit:
+            hit.add(pred)
+            out.append(((C.variant(cfg), pred), cfg, detail, "config"))
+    return out
+
+
+def replay(prop, args, rep):
+    data = R.load_replay(args.replay)
+    rep.evaluations = 1
+    for b, w, d, k in check_witness(prop, data, show=True):
+        rep.add_violation(b, w, d, kind=k)
     return rep.finish()
